@@ -44,6 +44,23 @@ def build_tables(gen, pres):
         if gen.get('head'):
             A, B = A.head(gen['head']), B.head(gen['head'])
         return A, B
+    if gen['gen'] == 'synth':
+        # fixed large synthetic instance: deterministic linear congruential generator, skewed vocabulary
+        def table(n, x):
+            rows = []
+            for _ in range(n):
+                x = (x * 6364136223846793005 + 1442695040888963407) % (1 << 64)
+                k = 1 + (x >> 33) % gen['maxlen']
+                toks = []
+                for _j in range(k):
+                    x = (x * 6364136223846793005 + 1442695040888963407) % (1 << 64)
+                    u = ((x >> 20) % 10007) / 10007.0
+                    toks.append(pres.token(int(gen['vocab'] * u * u * u)))     # cubic skew: few frequent tokens
+                rows.append(' '.join(toks))
+            return rows, x
+        lv, x = table(gen['n'], gen['seed'])
+        rv, _ = table(gen['n'] + 37, x)
+        return mkframe(lv, pres, prefix='l'), mkframe(rv, pres, prefix='r')
     if gen['gen'] == 'tiny':
         k, r = gen['k'], gen['r']
         lvals, rvals = [], []
@@ -252,11 +269,17 @@ def layers(tier):
         jobs.append({'gen': {'gen': 'corpus', 'name': name, 'head': 400 if quick else 1500}, 'meas': 'EDIT_DISTANCE',
                      'ths': [1, 2] if quick else [0, 1, 2, 3], 'swap_ths': [1], 'tok': ['qg', 2, True, False],
                      'pres': pres})
+    for meas in MEAS:
+        ts = [2, 4] if meas == 'OVERLAP' else [0.4, 0.6, 0.8, 1.0]
+        jobs.append({'gen': {'gen': 'synth', 'n': 400 if quick else 2500, 'vocab': 150 if quick else 600, 'maxlen': 12,
+                             'seed': 12345}, 'meas': meas, 'ths': ts, 'swap_ths': ts[:2], 'pres': pres,
+                     'tok': ['ws', False]})
     for n_, j_ in enumerate(jobs):
         j_['sweeps'] = ['descending'] if n_ % 2 else ['ascending']
     Ls.append(Layer('corpora', 'checks.c13:w_laws', jobs,
                     'bundled person tables (name, address) and books tables (title, author: 3022 x 3099 rows, '
-                    'sets of up to ~30 tokens) with whitespace and 3-gram tokenizers, all six joins',
+                    'sets of up to ~30 tokens) with whitespace and 3-gram tokenizers, all six joins; a fixed large synthetic '
+                    'instance (skewed vocabulary, repeated tokens, bag tokenizer)',
                     min_nontrivial=50, chunksize=1))
     return Ls
 
